@@ -237,6 +237,9 @@ def make_setup(case, rng):
         S.row_keys.append("nact")
         S.successor_keys.append("nact")
         qmin, qmax = float(rng.choice([-1e6, -0.5])), float(rng.choice([1e6, 0.5]))
+        if rng.random() < 0.35:
+            # degenerate range, e.g. TD7's initial target range [0, 0]
+            qmin = qmax = float(rng.choice([0.0, 0.05, -0.3]))
         minp = 1.0
 
         def call(i, mods=None):
